@@ -125,7 +125,7 @@ theorem known_request_response (s : State) :
         ∧ (s.stopped = false → (ctlVersion s [LL_VERSION_IND, v, c0, c1, s0, s1]).txq = s.txq ++ [versionInd])
         ∧ (ctlVersion s [LL_VERSION_IND, v, c0, c1, s0, s1]).versionReceived = true)
     -- phy request
-    ∧ (∀ a b : UInt8, s.cfg.phy2m = true →
+    ∧ (∀ a b : UInt8, s.cfg.phy2m = true → s.deferred = none →   -- (handle_phy_request asserts the latter)
         handleControl s (ctrl [LL_PHY_REQ, a, b]) = (commit s (ctrl [LL_PHY_RSP, 0x03, 0x03]), false))
     -- connection parameter request: echo as response, or LL_REJECT_EXT_IND(invalid parameters)
     ∧ (∀ p : Pdu, opcodeOf p.body = LL_CONNECTION_PARAM_REQ → p.body.length = 24 →
@@ -147,10 +147,10 @@ theorem known_request_response (s : State) :
     · unfold ctlVersion commit push
       repeat' split
       all_goals simp_all
-  · intro a b hp
+  · intro a b hp hdef
     have e2 : handleEncryptionPdus s 22 3 [22, a, b] = none := by
       simp [handleEncryptionPdus, LL_ENC_REQ, LL_START_ENC_RSP, LL_PAUSE_ENC_REQ, LL_PAUSE_ENC_RSP]
-    simp [handleControl, handleControlAux, opcodeOf, rd8, ctrl, ctlOther, e2, handlePhyRequest, hp, LL_PHY_REQ,
+    simp [handleControl, handleControlAux, opcodeOf, rd8, ctrl, ctlOther, e2, handlePhyRequest, hp, phyInstantCheck, hdef, LL_PHY_REQ,
       LL_CONNECTION_UPDATE_IND, LL_TERMINATE_IND, LL_VERSION_IND, LL_CHANNEL_MAP_REQ, LL_PING_REQ, LL_FEATURE_REQ,
       LL_UNKNOWN_RSP, LL_REJECT_IND, LL_REJECT_EXT_IND, LL_CONNECTION_PARAM_REQ]
   · intro p ho hn
